@@ -268,13 +268,9 @@ static int upipe_qsink_set_output(struct upipe *upipe, struct upipe *output)
 {
     struct upipe_qsink *upipe_qsink = upipe_qsink_from_upipe(upipe);
 
-    if (unlikely(upipe_qsink->output != NULL))
-        upipe_release(upipe_qsink->output);
-    if (unlikely(output == NULL))
-        return UBASE_ERR_NONE;
-
-    upipe_qsink->output = output;
-    upipe_use(output);
+    struct upipe *previous = upipe_qsink->output;
+    upipe_qsink->output = upipe_use(output);
+    upipe_release(previous);
     return UBASE_ERR_NONE;
 }
 
